@@ -66,9 +66,11 @@ func (p *PObj) Len() int                                        { return p.B.Len
 func (p *PObj) Points() func() geom.Point                       { return p.B.Points() }
 func (p *PObj) Transform(t proj.Transformer) (geom.Geom, error) { return p.B.Transform(t) }
 
+// Op is an Insert (default), a Delete (Del) or, in C12 lines, the query KQs[ID] (Qry).
 type Op struct {
 	Del bool
 	ID  int
+	Qry bool
 }
 
 type KQ struct {
@@ -95,7 +97,9 @@ func (h *Hist) String() string {
 	}
 	fmt.Fprintf(&b, " O %d", len(h.Ops))
 	for _, o := range h.Ops {
-		if o.Del {
+		if o.Qry {
+			fmt.Fprintf(&b, " Q%d", o.ID)
+		} else if o.Del {
 			fmt.Fprintf(&b, " D%d", o.ID)
 		} else {
 			fmt.Fprintf(&b, " I%d", o.ID)
@@ -144,7 +148,7 @@ func Parse(line string) *Hist {
 		if err != nil {
 			panic(err)
 		}
-		h.Ops = append(h.Ops, Op{Del: s[0] == 'D', ID: id})
+		h.Ops = append(h.Ops, Op{Del: s[0] == 'D', ID: id, Qry: s[0] == 'Q'})
 	}
 	if p.Next() != "Q" {
 		panic("Q expected")
